@@ -33,7 +33,8 @@ def spec(W, S, A):
     return shells
 
 
-def exp_guarded(W, label, fn, what):
+def exp_guarded(W, label, fn, what,
+                label2='C02:exp-argument-cannot-overflow'):
     """call fn; in the symbolic world every argument the code hands to
     np.exp inside must be provably below the float64 overflow threshold,
     whatever the scale of the likelihood (the estimators normalise by the
@@ -47,7 +48,7 @@ def exp_guarded(W, label, fn, what):
     finally:
         args, W.np.EXP_ARGS = W.np.EXP_ARGS, None
     for k, a in enumerate(args):
-        W.require(a <= 709, 'C02:exp-argument-cannot-overflow',
+        W.require(a <= 709, label2,
                   '%s: argument %d of np.exp is not bounded by the '
                   'normalisation' % (what, k))
     return ok, r
